@@ -7,6 +7,7 @@ import (
 	"errors"
 	"os"
 	"path"
+	"strconv"
 	"strings"
 	"syscall"
 
@@ -27,7 +28,7 @@ func c12GenEntries(r *Rand, mp, mv string, osLimits bool) []zipuEntry {
 		if strings.HasSuffix(name, "/") {
 			content = nil // archive/zip does not write data for directory entries
 		}
-		es = append(es, zipuEntry{name, uint64(len(content)), content})
+		es = append(es, zipuEntry{name: name, decl: uint64(len(content)), content: content})
 	}
 	// a mostly valid base: the files of a generated tree
 	o := zipuGenOpts{realFS: true, plainOnly: true, honest: true, noVCS: r.Chance(50), cleanPct: 70}
@@ -131,11 +132,18 @@ func c12GenEntries(r *Rand, mp, mv string, osLimits bool) []zipuEntry {
 				i := r.Intn(len(es))
 				n := uint64(len(es[i].content))
 				es[i].decl = []uint64{n + 1, n - 1, n + 1, n - 1, n + 2, 0, zipu16M - 1, zipu16M, zipu16M + 1, zipu500M - 1, zipu500M, zipu500M + 1, 250 << 20, 250<<20 + 1,
-					1 << 32, 1<<32 - 1, 1 << 63, 1<<63 - 1, 1<<64 - 1, n + 1<<32}[r.Intn(20)]
+					1 << 32, 1<<32 - 1, 1 << 63, 1<<63 - 1, 1<<64 - 1, n + 1<<32,
+					1<<63 + 1, 1<<63 + uint64(r.Intn(1<<30)), 1<<64 - zipu500M, 1<<64 - zipu500M - 1, 1<<64 - zipu16M, 1<<64 - 2}[r.Intn(26)]
 				if r.Chance(40) {
 					es[i].name = prefix + r.Pick([]string{"go.mod", "LICENSE"})
 				}
 			}
+		}
+	}
+	// header mode bits, independent of the name (zip.go decides "directory" by the trailing slash only)
+	for i := range es {
+		if r.Chance(12) {
+			es[i].mode = "ddsipzf"[r.Intn(7)]
 		}
 	}
 	if r.Chance(10) {
@@ -148,7 +156,39 @@ func c12GenEntries(r *Rand, mp, mv string, osLimits bool) []zipuEntry {
 	return es
 }
 
+// c12HugeSizes: archives that are fine except for one declared size that is negative as int64
+// (zip64 headers), for an ordinary file, go.mod and LICENSE, alone and followed by further content.
+func c12HugeSizes() [][]zipuEntry {
+	pfx := "example.com/m@v1.0.0/"
+	var out [][]zipuEntry
+	for _, name := range []string{"a.go", "go.mod", "LICENSE", "sub/b.go"} {
+		for _, d := range []uint64{1 << 63, 1<<63 + 1, 1<<63 + 123456789, 1<<64 - 1, 1<<64 - zipu500M, 1<<64 - zipu500M - 1, 1<<64 - zipu500M + 1, 1<<64 - zipu16M, 1<<64 - zipu16M - 1} {
+			out = append(out, []zipuEntry{{name: pfx + name, decl: d, content: []byte("x")}})
+			out = append(out, []zipuEntry{{name: pfx + "first.go", decl: 1, content: []byte("f")}, {name: pfx + name, decl: d, content: nil},
+				{name: pfx + "last.go", decl: 4, content: []byte("last")}})
+		}
+	}
+	return out
+}
+
+// c12ModeBits: well-formed archives whose file entries carry directory / symlink / odd mode bits.
+func c12ModeBits() [][]zipuEntry {
+	pfx := "example.com/m@v1.0.0/"
+	var out [][]zipuEntry
+	for _, md := range []byte("dsipzf") {
+		out = append(out, []zipuEntry{{name: pfx + "go.mod", decl: 21, content: []byte("module example.com/m\n")},
+			{name: pfx + "pkg/data.bin", decl: 4, content: []byte("data"), mode: md}, {name: pfx + "pkg/", mode: md}, {name: pfx + "z.go", decl: 1, content: []byte("z")}})
+		out = append(out, []zipuEntry{{name: pfx + "only", decl: 3, content: []byte("abc"), mode: md}})
+	}
+	return out
+}
+
 func genC12(g *Gen, n int) {
+	for _, es := range append(c12HugeSizes(), c12ModeBits()...) {
+		tok := zipuEntriesTok(es)
+		g.Emit("zip.checkzip "+hx("example.com/m")+" "+hx("v1.0.0")+" 0 "+tok, true, "fixed-sizes-modes")
+		g.Emit("zip.unzip "+hx("example.com/m")+" "+hx("v1.0.0")+" 0 m "+tok, true, "fixed-sizes-modes")
+	}
 	// the archive-size limit is checked before the archive is opened: sparse files
 	g.Emit("zip.checkzip "+hx("example.com/m")+" "+hx("v1.0.0")+" "+itoa(zipu500M+1)+" _", true, "zipsize")
 	g.Emit("zip.unzip "+hx("example.com/m")+" "+hx("v1.0.0")+" "+itoa(zipu500M+1)+" m _", true, "zipsize")
@@ -213,17 +253,19 @@ func c12Check(g *Gen, m module.Version, es []zipuEntry, target byte, line string
 				return ""
 			}
 		}
-		if o.err != nil {
+		if !accepted {
 			return ""
 		}
-		// success: every documented restriction holds, and the tree equals the entries
+		// the zip check accepts (and extraction, given a usable target and honest sizes, succeeds):
+		// every documented restriction holds for the archive as declared
 		g.Case("restrictions")
 		if len(cf.Invalid) != 0 || cf.SizeError != nil {
-			g.Fail("C12 restrictions: Unzip succeeds but the report lists problems", "", line)
+			g.Fail("C12 restrictions: CheckZip returns no error but the report lists problems", "", line)
 			return ""
 		}
 		prefix := m.Path + "@" + m.Version + "/"
 		want := map[string][]byte{}
+		var wantValid []string
 		var total uint64
 		type ent struct {
 			rel   string
@@ -232,7 +274,7 @@ func c12Check(g *Gen, m module.Version, es []zipuEntry, target byte, line string
 		var seen []ent
 		for _, e := range es {
 			if !strings.HasPrefix(e.name, prefix) {
-				g.Fail("C12 restrictions: extracted an archive with an entry lacking the module prefix", hx(e.name), line)
+				g.Fail("C12 restrictions: accepted an archive with an entry lacking the module prefix", hx(e.name), line)
 				return ""
 			}
 			rel := e.name[len(prefix):]
@@ -242,7 +284,7 @@ func c12Check(g *Gen, m module.Version, es []zipuEntry, target byte, line string
 			isDir := strings.HasSuffix(rel, "/")
 			rel = strings.TrimSuffix(rel, "/")
 			if rel != path.Clean(rel) || path.IsAbs(rel) || module.CheckFilePath(rel) != nil {
-				g.Fail("C12 restrictions: extracted an archive with an unclean, absolute or ill-formed path", hx(e.name), line)
+				g.Fail("C12 restrictions: accepted an archive with an unclean, absolute or ill-formed path", hx(e.name), line)
 				return ""
 			}
 			// collisions: against every earlier entry and every ancestor directory
@@ -250,7 +292,7 @@ func c12Check(g *Gen, m module.Version, es []zipuEntry, target byte, line string
 				for d, dIsDir := rel, isDir; d != "."; d, dIsDir = path.Dir(d), true {
 					for q, qIsDir := s.rel, s.isDir; q != "."; q, qIsDir = path.Dir(q), true {
 						if strings.EqualFold(d, q) && (d != q || dIsDir != qIsDir || !dIsDir) {
-							g.Fail("C12 restrictions: extracted an archive with colliding entries", hx(e.name)+" vs "+hx(s.rel), line)
+							g.Fail("C12 restrictions: accepted an archive with colliding entries", hx(e.name)+" vs "+hx(s.rel), line)
 							return ""
 						}
 					}
@@ -261,23 +303,37 @@ func c12Check(g *Gen, m module.Version, es []zipuEntry, target byte, line string
 				continue
 			}
 			if strings.EqualFold(path.Base(rel), "go.mod") && rel != "go.mod" {
-				g.Fail("C12 restrictions: extracted an archive with a misplaced or mis-cased go.mod", hx(e.name), line)
+				g.Fail("C12 restrictions: accepted an archive with a misplaced or mis-cased go.mod", hx(e.name), line)
 				return ""
 			}
-			if e.decl != uint64(len(e.content)) {
-				g.Fail("C12 restrictions: extracted an entry whose size differs from its declaration", hx(e.name), line)
+			// sizes are within limits: the declared 64-bit size of each file, go.mod, LICENSE and the total
+			if e.decl > modzip.MaxZipFile || total+e.decl > modzip.MaxZipFile ||
+				(rel == "go.mod" && e.decl > modzip.MaxGoMod) || (rel == "LICENSE" && e.decl > modzip.MaxLICENSE) {
+				g.Fail("C12 restrictions: CheckZip accepts an archive whose declared sizes exceed a limit",
+					hx(e.name)+" declares "+strconv.FormatUint(e.decl, 10)+" bytes", line)
 				return ""
 			}
 			total += e.decl
-			if (rel == "go.mod" && e.decl > modzip.MaxGoMod) || (rel == "LICENSE" && e.decl > modzip.MaxLICENSE) || total > modzip.MaxZipFile {
-				g.Fail("C12 restrictions: extracted an archive exceeding a size limit", hx(e.name), line)
+			want[rel] = e.content
+			wantValid = append(wantValid, e.name)
+		}
+		if c17SetOf(cf.Valid) != c17SetOf(wantValid) {
+			g.Fail("C12 restrictions: the Valid list of an accepted archive is not its file entries", "", line)
+			return ""
+		}
+		if o.err != nil {
+			return ""
+		}
+		// extraction succeeded: sizes match their declarations and the extracted tree equals the entries
+		for _, e := range es {
+			if !strings.HasSuffix(e.name, "/") && e.name != prefix && e.decl != uint64(len(e.content)) {
+				g.Fail("C12 restrictions: extracted an entry whose size differs from its declaration", hx(e.name), line)
 				return ""
 			}
-			want[rel] = e.content
 		}
 		g.Case("tree-eq-entries")
-		if len(o.files) != len(want) {
-			g.Fail("C12 tree: extracted tree has a different number of files than the archive", itoa(len(o.files))+" vs "+itoa(len(want)), line)
+		if len(o.files) != len(want) || len(o.files) != len(cf.Valid) {
+			g.Fail("C12 tree: extracted tree has a different number of files than the archive / the Valid list", itoa(len(o.files))+" vs "+itoa(len(want))+" / "+itoa(len(cf.Valid)), line)
 			return ""
 		}
 		for p, c := range want {
@@ -308,6 +364,11 @@ func c12Check(g *Gen, m module.Version, es []zipuEntry, target byte, line string
 }
 
 func oracleC12(g *Gen, n int) {
+	for _, es := range append(c12HugeSizes(), c12ModeBits()...) {
+		m := module.Version{Path: "example.com/m", Version: "v1.0.0"}
+		t := "me"[g.Intn(2)]
+		c12Check(g, m, es, t, "zip.unzip "+hx(m.Path)+" "+hx(m.Version)+" 0 "+string(t)+" "+zipuEntriesTok(es))
+	}
 	for i := 0; i < n; i++ {
 		mp, mv := zipuPickMod(g.Rand, 4)
 		es := c12GenEntries(g.Rand, mp, mv, true)
@@ -322,7 +383,7 @@ func oracleC12(g *Gen, n int) {
 			for _, sz := range []int{zipu16M, zipu16M + 1} {
 				c := make([]byte, sz)
 				copy(c, "module example.com/m\n")
-				es := []zipuEntry{{m.Path + "@" + m.Version + "/" + name, uint64(sz), c}, {m.Path + "@" + m.Version + "/a.go", 1, []byte("a")}}
+				es := []zipuEntry{{name: m.Path + "@" + m.Version + "/" + name, decl: uint64(sz), content: c}, {name: m.Path + "@" + m.Version + "/a.go", decl: 1, content: []byte("a")}}
 				g.Case("boundary-16MiB")
 				c12Check(g, m, es, 'm', "(16MiB boundary) entry "+name+" size "+itoa(sz))
 			}
